@@ -314,6 +314,22 @@ func genReadOnly(c *Case, r *simrt.Rand, tier string) {
 	cfg.drainW = 12
 	cfg.kids = 0.3
 	genSingle(c, r, cfg)
+	if r.Chance(0.1) {
+		// tiny stores: the complete data file holds a header page and a footer
+		// and nothing else (only an empty child collection was ever created; a
+		// full compaction after every key was deleted, with or without the
+		// superseded file still around)
+		k := []byte("k")
+		if r.Chance(0.5) {
+			c.Prog = []Op{{Kind: "batch", B: &BatchSpec{Kids: map[string]*BatchSpec{"x": {}}}}, {Kind: "drain"}}
+		} else {
+			c.Opts.Concern = 2
+			c.Opts.KeepFiles = r.Chance(0.5)
+			c.Prog = []Op{{Kind: "batch", B: &BatchSpec{Ops: []KV{{Op: "set", K: k, V: []byte("v1.0")}}}}, {Kind: "drain"},
+				{Kind: "batch", B: &BatchSpec{Ops: []KV{{Op: "del", K: k}}}}, {Kind: "drain"}}
+		}
+		c.Faults = nil
+	}
 	// phase 2 program: reads, a few batches, notifications, closes
 	n := 2 + r.Intn(8)
 	g := &batchGen{r: r, pool: keyPool(r, false)}
